@@ -150,7 +150,11 @@ def execute(prop, seed, tier="quick", replay=None, want_sample=False):
     ctx = Ctx(prop.ID, seed, tape, tier)
     # per-run harness state
     fs.ROOT.mkdir(parents=True, exist_ok=True)
-    rundir = fs.fresh_dir("run")
+    # a directory name unique to the run: library-side state keyed on paths (caches) must not couple runs of a chunk
+    import shutil
+    for old in fs.ROOT.glob("run-*"):
+        shutil.rmtree(old, ignore_errors=True)
+    rundir = fs.fresh_dir(f"run-{seed}")
     fs.reset(dir_stream=tape.s("fs"), bufsize=[1, 7, 64, 512, 8192][tape.s("cfg").draw(5)])
     ctx.rundir = rundir
     ctx.new_epoch()
@@ -227,14 +231,22 @@ def run_chunk(prop_id, seeds, tier, collect_digests=False, nsamples=2):
         elif r["outcome"] == "skip":
             agg["skip"] += 1
         elif r["outcome"] == "violation":
-            if len(agg["violations"]) < 20:
+            # one representative (the first, i.e. lowest seed of the chunk) per distinct (kind, site, feature tags): a
+            # frequent recorded finding must never crowd out a different violation
+            key = vkey(r)
+            if not any(vkey(x) == key for x in agg["violations"]) and len(agg["violations"]) < 60:
                 agg["violations"].append(r)
             agg["probes"]["violations_total"] += 1
+            agg["probes"]["violations:" + r["kind"]] += 1
         else:
             if len(agg["harness_errors"]) < 5:
                 agg["harness_errors"].append(r)
             agg["probes"]["harness_errors_total"] += 1
     return agg
+
+
+def vkey(r):
+    return (r.get("kind"), r.get("site"), repr(sorted((r.get("features") or {}).items())))
 
 
 def merge(a, b):
@@ -244,7 +256,10 @@ def merge(a, b):
         a[k].update(b[k])
     a["nt_digests"] |= b["nt_digests"]
     a["all_digests"] |= b["all_digests"]
-    for k, cap in (("violations", 60), ("harness_errors", 10), ("samples", 6)):
+    for v in b["violations"]:
+        if not any(vkey(x) == vkey(v) for x in a["violations"]) and len(a["violations"]) < 120:
+            a["violations"].append(v)
+    for k, cap in (("harness_errors", 10), ("samples", 6)):
         a[k].extend(b[k])
         del a[k][cap:]
     a["digests"].extend(b["digests"])
